@@ -1,0 +1,10 @@
+//go:build verif
+
+package server
+
+import "github.com/go-chi/chi/v5"
+
+// VerifRoutes exposes the router for route discovery by the simulation harness.
+func (s *server) VerifRoutes() chi.Routes {
+	return s.handler.(chi.Routes)
+}
